@@ -169,6 +169,13 @@ NUMBER_TEMPLATES = [
     "x = {}", "x = -{} + {}j", "ego = new Object\nmutate ego by {}", "ego = new Object\nrecord 1 after {} seconds as r",
     "match v:\n    case {}:\n        pass", "match v:\n    case -{} + {}:\n        pass",
 ]
+SPECIFIERS = ["at (1, 2)", "offset by (1, 2)", "offset along 3 by (1, 2)", "beyond ego by (1, 2)", "beyond ego by 3 from ego", "visible", "visible from ego",
+              "not visible", "not visible from ego", "in workspace", "on workspace", "contained in workspace", "facing 3", "facing toward ego",
+              "facing away from ego", "facing directly toward ego", "facing directly away from ego", "apparently facing 3", "apparently facing 3 from ego",
+              "with foo 3", "left of ego", "right of ego by 1", "ahead of ego by 1", "behind ego", "above ego by 1", "below ego",
+              "following f for 3", "following f from ego for 3", "at (1, 2), facing 3", "beyond ego by 3, with foo 1"]
+FORGOT_NEW_TEMPLATES = ["x = Car {}", "Car {}", "ego = Object {}", "x = [Car {}]", "f(Car {})", "x = interrupt Car {}",
+                        "behavior B():\n    c = Car {}\n    wait", "x = new Car {}", "new Object {}"]
 CONVERSIONS = ["s", "r", "a", "sr", "ra", "sra", "x", "rr", "", " r", "R", "1", "s ", "ss"]
 FSTRING_TEMPLATES = ["v = f'{{x!{}}}'", "v = f'{{x!{}:>4}}'", "v = f'{{x = !{}}}'", "v = f'a{{x!{}}}b{{y}}'", 'v = f"""{{x!{}}}"""',
                      "v = rf'\\d{{x!{}}}'", "v = f'{{x:{{w}}!{}}}'", "v = f'{{f\"{{y!{}}}\"}}'"]
@@ -330,7 +337,7 @@ def obligations(tier, seed):
     obs.append(Obligation("state-reset-on-faults", h_state_reset, "veneer inactive after a fault at any compilation stage",
                           {"stages": STAGES}, [translator.compileStream, translator._scenarioFromStream], [], opts=dict(total_timeout=900.0, per_path_timeout=60.0)))
     tobs = [("tracked-and-reserved-names-in-binding-positions", NAME_TEMPLATES, NAMES), ("numeric-literal-forms", NUMBER_TEMPLATES, NUMBERS),
-            ("fstring-conversions", FSTRING_TEMPLATES, CONVERSIONS)]
+            ("fstring-conversions", FSTRING_TEMPLATES, CONVERSIONS), ("instance-creation-with-and-without-new", FORGOT_NEW_TEMPLATES, SPECIFIERS)]
     for name, templates, fills in tobs:
         obs.append(Obligation(f"templates[{name}]", h_templates(templates, fills), f"{len(templates)} statement templates x {len(fills)} fills",
                               {"templates": len(templates), "fills": fills}, [parser.parse_string, compiler.compileScenicAST, translator.compileTranslatedTree], [],
